@@ -211,7 +211,21 @@ AsciiRun(enc, bytes, i) ==
 MonLatin1(m, ev) ==
   IF m.desync \/ m.done THEN m
   ELSE IF ev.ret = -2 THEN [AddViols(m, <<"C06.panic">>) EXCEPT !.desync = TRUE]
-  ELSE IF m.lag < 0 THEN m   \* the implementation has looked ahead (error reported, offending byte unread): wc is not its state
+  ELSE IF m.lag < 0 THEN
+    \* The implementation has looked ahead: it has already emitted -lag items that the Standard only produces
+    \* from bytes beyond the consumed position (error reported with the offending byte un-read, a withheld BOM
+    \* byte replayed).  wc is then not its state, so no "must be None / must be Some" judgement; but a claim
+    \* Some(n) with n > 0 is still checked against what the decoder is bound to emit next: the lag queue
+    \* (determined by the presented bytes, which the query's bytes repeat) followed by the Standard's items for
+    \* the bytes beyond them - the first n of these must be exactly the first n byte values.
+    (IF ev.ret <= 0 \/ ev.ret > Len(ev.bytes) THEN m
+     ELSE LET k0 == Min(Len(m.pend), Len(ev.bytes)) IN
+       IF SubSeq(ev.bytes, 1, k0) # SubSeq(m.pend, 1, k0) THEN m      \* not a query about the upcoming input
+       ELSE LET extra == IF ev.ret > Len(m.pend)
+                         THEN WFeed(m.cfg, m.w, SubSeq(ev.bytes, Len(m.pend) + 1, ev.ret), 0).items ELSE <<>>
+                up == m.avail \o extra
+            IN  IF Len(up) >= ev.ret /\ \A j \in 1..ev.ret : up[j] = ItemC(ev.bytes[j]) THEN m
+                ELSE AddViols(m, <<"C19.not-identity">>))
   ELSE
   LET wc == m.wc
       enc == wc.used
